@@ -736,4 +736,150 @@ theorem call_progress (kid : Kid) (c : Caller) (hi : Inv kid.g) (hf : kid.g.exit
             omega
   · rename_i r hs; simp [Caller.isDone, hs] at hd
 
+/-! ### terminal supervision events: one, or two after a panic in a later statement of `cleanup` -/
+
+/-- the exiter is past `cleanup.notify` -/
+def EPc.pastNotify : EPc → Bool
+  | .unlink | .stopped | .set3 _ | .late _ _ | .done => true
+  | _ => false
+
+def b2n (b : Bool) : Nat := if b then 1 else 0
+
+structure EvOk (g : G) : Prop where
+  le : g.sh.supEvents ≤ b2n g.exiter.pc.pastNotify + b2n g.exiter.unwound
+  ge : g.exiter.pc.pastNotify = true → 1 ≤ g.sh.supEvents
+
+theorem stepSet_supEvents (sh : Sh) (ws : List Waiter) (c : SPc) :
+    (stepSet sh ws c).1.supEvents = sh.supEvents := by
+  cases c <;> simp only [stepSet, notifyOne] <;> (try split) <;> (try split) <;> rfl
+
+theorem stepSetter_supEvents (sh : Sh) (ws : List Waiter) (t : Setter) :
+    (stepSetter sh ws t).1.supEvents = sh.supEvents := by
+  obtain ⟨call, rest⟩ := t
+  cases call with
+  | some c => simp only [stepSetter]; exact stepSet_supEvents sh ws c
+  | none =>
+    cases rest with
+    | nil => rfl
+    | cons s rest => simp only [stepSetter]; exact stepSet_supEvents sh ws (.publish s)
+
+theorem lateEntry_past (l : List Nat) : (lateEntry l).pastNotify = true := by
+  cases l <;> rfl
+
+theorem EvOk.congr {g g' : G} (hs : g'.sh.supEvents = g.sh.supEvents)
+    (hp : g'.exiter.pc.pastNotify = g.exiter.pc.pastNotify) (hu : g'.exiter.unwound = g.exiter.unwound)
+    (h : EvOk g) : EvOk g' :=
+  ⟨by rw [hs, hp, hu]; exact h.le, by rw [hs, hp]; exact h.ge⟩
+
+theorem evok_e (g : G) (h : EvOk g) : EvOk (step g .e) := by
+  obtain ⟨sh, ex, setters, ws, drs⟩ := g
+  obtain ⟨pc, post, lc, armed, unwound⟩ := ex
+  cases pc with
+  | set1 c =>
+    refine EvOk.congr ?_ ?_ ?_ h <;> simp only [step, stepExiter]
+    · have := stepSet_supEvents sh ws c; revert this
+      generalize stepSet sh ws c = r; obtain ⟨a, b, c'⟩ := r; intro this; cases c' <;> exact this
+    · generalize stepSet sh ws c = r; obtain ⟨a, b, c'⟩ := r; cases c' <;> (try cases post) <;> rfl
+    · generalize stepSet sh ws c = r; obtain ⟨a, b, c'⟩ := r; cases c' <;> rfl
+  | set2 c =>
+    refine EvOk.congr ?_ ?_ ?_ h <;> simp only [step, stepExiter]
+    · have := stepSet_supEvents sh ws c; revert this
+      generalize stepSet sh ws c = r; obtain ⟨a, b, c'⟩ := r; intro this; cases c' <;> exact this
+    · generalize stepSet sh ws c = r; obtain ⟨a, b, c'⟩ := r; cases c' <;> rfl
+    · generalize stepSet sh ws c = r; obtain ⟨a, b, c'⟩ := r; cases c' <;> rfl
+  | set3 c =>
+    refine EvOk.congr ?_ ?_ ?_ h <;> simp only [step, stepExiter]
+    · have := stepSet_supEvents sh ws c; revert this
+      generalize stepSet sh ws c = r; obtain ⟨a, b, c'⟩ := r; intro this; cases c' <;> exact this
+    · generalize stepSet sh ws c = r; obtain ⟨a, b, c'⟩ := r
+      cases c' <;> first | rfl | exact lateEntry_past lc
+    · generalize stepSet sh ws c = r; obtain ⟨a, b, c'⟩ := r; cases c' <;> rfl
+  | late c rest =>
+    refine EvOk.congr ?_ ?_ ?_ h <;> simp only [step, stepExiter]
+    · have := stepSet_supEvents sh ws c; revert this
+      generalize stepSet sh ws c = r; obtain ⟨a, b, c'⟩ := r; intro this; cases c' <;> exact this
+    · generalize stepSet sh ws c = r; obtain ⟨a, b, c'⟩ := r
+      cases c' <;> first | rfl | exact lateEntry_past rest
+    · generalize stepSet sh ws c = r; obtain ⟨a, b, c'⟩ := r; cases c' <;> rfl
+  | postStop => (refine EvOk.congr ?_ ?_ ?_ h <;> rfl)
+  | terminate => (refine EvOk.congr ?_ ?_ ?_ h <;> rfl)
+  | notifySup =>
+    obtain ⟨hle, hge⟩ := h
+    refine ⟨?_, fun _ => by simp [step, stepExiter]⟩
+    cases unwound <;> simp [step, stepExiter, EPc.pastNotify, b2n] at hle ⊢ <;> omega
+  | unlink => (refine EvOk.congr ?_ ?_ ?_ h <;> rfl)
+  | stopped => (refine EvOk.congr ?_ ?_ ?_ h <;> rfl)
+  | done => (refine EvOk.congr ?_ ?_ ?_ h <;> rfl)
+
+theorem evok_step (g : G) (t : Tid) (hi : Inv g) (h : EvOk g) : EvOk (step g t) := by
+  cases t with
+  | e => exact evok_e g h
+  | s i =>
+    have he := other_steps_keep_exiter g (.s i) (by simp) (by simp)
+    have hs : (step g (.s i)).sh.supEvents = g.sh.supEvents := by
+      simp only [step]; split
+      · rfl
+      · exact stepSetter_supEvents _ _ _
+    exact ⟨by rw [he, hs]; exact h.le, by rw [he, hs]; exact h.ge⟩
+  | w i =>
+    have he := other_steps_keep_exiter g (.w i) (by simp) (by simp)
+    have hs : (step g (.w i)).sh.supEvents = g.sh.supEvents := by
+      simp only [step]; split
+      · rfl
+      · rename_i w hw
+        obtain ⟨pc, wk⟩ := w
+        cases pc <;> simp only [stepWaiter] <;> (repeat' split) <;> rfl
+    exact ⟨by rw [he, hs]; exact h.le, by rw [he, hs]; exact h.ge⟩
+  | abandon i =>
+    have he := other_steps_keep_exiter g (.abandon i) (by simp) (by simp)
+    have hs : (step g (.abandon i)).sh.supEvents = g.sh.supEvents := by
+      simp only [step]; split
+      · rfl
+      · split
+        · rfl
+        · rfl
+        · split
+          · simp only [notifyOne]; split <;> rfl
+          · rfl
+    exact ⟨by rw [he, hs]; exact h.le, by rw [he, hs]; exact h.ge⟩
+  | d i =>
+    have he := other_steps_keep_exiter g (.d i) (by simp) (by simp)
+    have hs : (step g (.d i)).sh.supEvents = g.sh.supEvents := by
+      simp only [step]; split <;> rfl
+    exact ⟨by rw [he, hs]; exact h.le, by rw [he, hs]; exact h.ge⟩
+  | succ =>
+    have he := other_steps_keep_exiter g .succ (by simp) (by simp)
+    have hs : (step g .succ).sh.supEvents = g.sh.supEvents := by
+      simp only [step]; split <;> rfl
+    exact ⟨by rw [he, hs]; exact h.le, by rw [he, hs]; exact h.ge⟩
+  | unwind =>
+    obtain ⟨hle, hge⟩ := h
+    have harm := hi.armed
+    obtain ⟨sh, ex, setters, ws, drs⟩ := g
+    obtain ⟨pc, post, lc, armed, unwound⟩ := ex
+    simp only at hle hge harm
+    cases unwound
+    · cases pc <;> simp only [step, Bool.false_eq_true, if_false] <;>
+        first
+        | exact ⟨hle, hge⟩
+        | (have ha : armed = true := harm (by simp [EPc.stage])
+           subst ha
+           simp only [if_true]
+           refine ⟨?_, by simp [EPc.pastNotify]⟩
+           simp only [EPc.pastNotify, b2n] at hle ⊢
+           simp only [Bool.false_eq_true, if_false, if_true] at hle ⊢
+           omega)
+    · simp only [step, if_true]; exact ⟨hle, hge⟩
+
+theorem evok_run (g : G) (l : List Tid) (hi : Inv g) (h : EvOk g) : EvOk (run g l) := by
+  induction l generalizing g with
+  | nil => exact h
+  | cons t l ih =>
+    simp only [run, List.foldl_cons]
+    exact ih _ (inv_step g t hi) (evok_step g t hi h)
+
+theorem finished_pastNotify {ex : Exiter} (h : ex.finished = true) : ex.pc.pastNotify = true := by
+  obtain ⟨pc, post, lc, armed, unwound⟩ := ex
+  cases pc <;> simp [Exiter.finished] at h <;> rfl
+
 end ExitRace
